@@ -1,6 +1,8 @@
 package profile
 
 import (
+	"bytes"
+	"encoding/json"
 	"fmt"
 	"github.com/aml-org/amf-custom-validator/internal/parser/path"
 	"strings"
@@ -27,13 +29,22 @@ func (r ScalarSetRule) Negate() Rule {
 	return negated
 }
 
+// JSONValues returns the JSON list of the values, escaped for use inside a double-quoted string literal
 func (r ScalarSetRule) JSONValues() string {
-	var acc []string
-	for _, v := range r.Argument {
-		acc = append(acc, fmt.Sprintf("\\\"%s\\\"", v))
+	acc := make([]string, len(r.Argument))
+	for i, v := range r.Argument {
+		acc[i] = jsonString(v)
 	}
+	quoted := jsonString(fmt.Sprintf("[%s]", strings.Join(acc, ",")))
+	return quoted[1 : len(quoted)-1]
+}
 
-	return fmt.Sprintf("[%s]", strings.Join(acc, ","))
+func jsonString(s string) string {
+	var b bytes.Buffer
+	enc := json.NewEncoder(&b)
+	enc.SetEscapeHTML(false)
+	_ = enc.Encode(s)
+	return strings.TrimSuffix(b.String(), "\n")
 }
 
 func (r ScalarSetRule) String() string {
